@@ -205,6 +205,17 @@ inductive RRows
   | cons (r : RRow) (rs : RRows)
 end
 
+/-- An `In` item whose dynamic type is exactly `[]interface{}` is NOT a value to compare with: `v.([]interface{})` succeeds
+    (expr.go:71) and its elements become the components of a tuple.  `In([]interface{}{1,2})` on a `[]interface{}` parameter fails
+    to resolve ("number of args") and `In([]interface{}{1})` on an `interface{}` parameter accepts `1`, not the slice — the
+    union clause of the property is false there (known finding `C18-in-item-slice-of-interface-is-tuple`, Findings/C18InTuple.lean).
+    The model does not follow the tuple reading (sizes of the elements' dynamic types are not part of a term): such an item is
+    `unmodelled`; the check judges these lines with the probe's union oracle only. -/
+def Comp.isTupleLike : Comp → Bool
+  | .val (some (.slice ty _ _, _)) => ty == "[]any"
+  | .val (some (.nilslice ty, _)) => ty == "[]any"
+  | _ => false
+
 def Comps.len : Comps → Nat
   | .nil => 0
   | .cons _ r => r.len + 1
@@ -238,6 +249,7 @@ def resolve : Expr → List Ty → Res RExpr
 def resolveItems : Items → List Ty → Res RRows
   | .nil, _ => .ok .nil
   | .one c rest, types =>
+    if c.isTupleLike then .unmodelled else
     (if 1 != types.length then (Res.err "the-number-of-args" : Res RRow)
      else match typeAt types 0 with
        | none => Res.panic "runtime-error-index-out"
@@ -291,12 +303,23 @@ component `i` is resolved (non-variadically) against `types[i]` for `i < len(typ
 which is `typeAt (fixed ++ [elemT]) i`.  A non-tuple item in variadic mode is expanded with `reflect.Value.Len` and is not
 modelled.  `Eval` replaces the packed last argument by its elements and otherwise proceeds as above. -/
 
-def resolveTuplesV : Items → List Ty → Ty → Res RRows
-  | .nil, _, _ => .ok .nil
-  | .one _ _, _, _ => .unmodelled
-  | .tuple cs rest, fixed, elemT =>
+/-- A non-tuple item in variadic mode (expr.go:74-81): when its INDEX among the items (sic — the code compares the item index,
+    not a parameter position) is at least `len(types)-1` it is expanded with `reflect.ValueOf(v).Len()`, which panics for
+    anything that is not a slice/array/string/map value (`In(1, 2)` on `f(xs ...int)`); the expansion itself is not modelled. -/
+def lenPanics : Comp → Bool
+  | .val (some (.slice .., _)) | .val (some (.nilslice .., _)) | .val (some (.arr .., _)) | .val (some (.str .., _))
+  | .val (some (.map .., _)) | .val (some (.nilmap .., _)) => false
+  | _ => true
+
+def resolveTuplesVFrom : Items → List Ty → Ty → Nat → Res RRows
+  | .nil, _, _, _ => .ok .nil
+  | .one c _, fixed, _, i =>
+    if i ≥ fixed.length && lenPanics c then .panic "reflect-call-of-reflect.value.len" else .unmodelled
+  | .tuple cs rest, fixed, elemT, i =>
     (if cs.len < fixed.length then (Res.err "the-number-of-args" : Res RRow) else toExprFrom cs (fixed ++ [elemT]) 0).bind
-      (fun row => (resolveTuplesV rest fixed elemT).bind (fun rows => .ok (.cons row rows)))
+      (fun row => (resolveTuplesVFrom rest fixed elemT (i + 1)).bind (fun rows => .ok (.cons row rows)))
+
+def resolveTuplesV (items : Items) (fixed : List Ty) (elemT : Ty) : Res RRows := resolveTuplesVFrom items fixed elemT 0
 
 /-- `In(items).Resolve(fixed ++ [sliceT], true)`. -/
 def resolveInV (items : Items) (fixed : List Ty) (elemT : Ty) : Res RExpr :=
@@ -332,7 +355,10 @@ def step (o : Obj) : Call → Obj × Obs
   | .resolve types =>
     match resolve o.src types with
     | .ok r => ({ o with res := some r }, .resolved (.ok ()))
-    | .err c => (o, .resolved (.err c))
+    | .err c =>                                  -- expr.go:46: `e.argV, err = toValue(..)` stores the invalid Value with the error;
+      (match o.src with                          -- an In keeps its old rows (expr.go:87-89 returns before the assignment)
+       | .equals _ => ({ o with res := some (.equals none) }, .resolved (.err c))
+       | _ => (o, .resolved (.err c)))
     | .panic c => (o, .resolved (.panic c))
     | .unmodelled => (o, .resolved .unmodelled)
   | .eval input => (o, .answered (eval (o.res.getD (unresolved o.src)) input))
